@@ -75,9 +75,9 @@ inductive Covers (languages : List Line) : Nat → List Line → List Tok → Pr
 
 /-! ## well-formed documents (the statement of `C06_wellformed`) -/
 
-/-- a scrut block as it is written: fence line, comment lines, `$ cmd`, `> more` lines,
-expectation lines, optionally an exit code line `[n]`, closing fence (the backticks of the opening
-line) -/
+/-- a scrut block with a command, as it is written: fence line, comment lines, `$ cmd`, `> more`
+lines, then expectation lines among which at most one exit code line `[n]` may stand anywhere,
+closing fence (any line that starts with the backticks of the opening line, e.g. a longer fence) -/
 structure Block where
   opener : Line
   /-- what the fence recogniser returns for `opener` -/
@@ -87,70 +87,154 @@ structure Block where
   comments : List Line
   cmd : Line
   more : List Line
-  exps : List Line
-  /-- the exit code line and the number it denotes -/
-  exit : Option (Line × Nat)
+  /-- the lines after the command: expectations and possibly an exit code line -/
+  after : List Line
+  closer : Line
 
 def Block.cmdLine (b : Block) : Line := '$' :: ' ' :: b.cmd
 def contLine (x : Line) : Line := '>' :: ' ' :: x
-def Block.exitLines (b : Block) : List Line :=
-  match b.exit with
-  | some (x, _) => [x]
-  | none => []
+/-- the exit codes written among the lines (a line `[n]` with `n ≤ i32::MAX`) -/
+def exitCodes (after : List Line) : List Nat := after.filterMap extractExitCode
+/-- the other lines: the expectations -/
+def expLines (after : List Line) : List Line := after.filter (fun a => (extractExitCode a).isNone)
+def Block.exps (b : Block) : List Line := expLines b.after
+def Block.exit (b : Block) : Option Nat := (exitCodes b.after).head?
 /-- the lines after the comments -/
-def Block.code (b : Block) : List Line := b.cmdLine :: (b.more.map contLine ++ (b.exps ++ b.exitLines))
+def Block.code (b : Block) : List Line := b.cmdLine :: (b.more.map contLine ++ b.after)
 def Block.body (b : Block) : List Line := b.comments ++ b.code
-def Block.lines (b : Block) : List Line := b.opener :: (b.body ++ [b.bt])
+def Block.lines (b : Block) : List Line := b.opener :: (b.body ++ [b.closer])
+
+/-- a fenced block that is not a test: a foreign code block (`language` not a test language, any
+body), or a scrut block without command (`language` a test language, body = comment lines only,
+possibly none) -/
+structure Fenced where
+  opener : Line
+  bt : Line
+  language : Line
+  config : Line
+  body : List Line
+  closer : Line
+
+def Fenced.lines (v : Fenced) : List Line := v.opener :: (v.body ++ [v.closer])
 
 inductive Item where
-  /-- any line that is neither a fence start nor `---` (blank, text, heading, …) -/
+  /-- any line that is not a fence start (blank, text, heading, backtick-led prose, …) -/
   | prose (l : Line)
+  /-- `---`, lines, `---` -/
+  | front (body : List Line)
+  /-- scrut block with a command -/
   | block (b : Block)
+  /-- foreign code block -/
+  | foreign (v : Fenced)
+  /-- scrut block without a command -/
+  | noCommand (v : Fenced)
+
+def Item.lines : Item → List Line
+  | .prose l => [l]
+  | .front body => frontMatterFence :: (body ++ [frontMatterFence])
+  | .block b => b.lines
+  | .foreign v => v.lines
+  | .noCommand v => v.lines
 
 def render : List Item → List Line
   | [] => []
-  | .prose l :: r => l :: render r
-  | .block b :: r => b.lines ++ render r
+  | it :: r => it.lines ++ render r
 
-/-- what the renderer needs -/
+/-- the inline configuration is acceptable YAML (or absent) -/
+def cfgAccepted (env : Env) (config : Line) : Prop :=
+  match stripBraces config with
+  | some c => env.testCfgOk c = true
+  | none => True
+
+/-- what the renderer needs for a block with a command -/
 def Block.WF (env : Env) (b : Block) : Prop :=
   extractCodeBlockStart b.opener = .ok (some (b.bt, b.language, b.config)) ∧
   env.languages.contains b.language = true ∧
-  (match stripBraces b.config with
-    | some c => env.testCfgOk c = true
-    | none => True) ∧
-  -- no line of the block closes it early
-  (∀ x ∈ b.body, startsWith x b.bt = false) ∧
+  cfgAccepted env b.config ∧
+  -- no line of the block closes it early; the closing line starts with the opening fence
+  (∀ x ∈ b.body, startsWith x b.bt = false) ∧ startsWith b.closer b.bt = true ∧
   (∀ c ∈ b.comments, isComment c = true) ∧
-  -- expectation lines: accepted by the expectation grammar, not an exit code, not `> …`
-  (∀ e ∈ b.exps, env.expOk e = true ∧ extractExitCode e = none ∧ stripPrefix ['>', ' '] e = none) ∧
-  (match b.exit with
-    | some (x, n) => extractExitCode x = some n
-    | none => True)
+  -- at most one exit code line; the other lines are accepted by the expectation grammar; the line
+  -- directly after the command does not continue it
+  (exitCodes b.after).length ≤ 1 ∧ (∀ e ∈ b.exps, env.expOk e = true) ∧
+  (match b.after with
+    | a :: _ => stripPrefix ['>', ' '] a = none
+    | [] => True)
 
-def Item.WF (env : Env) : Item → Prop
-  | .prose l => extractCodeBlockStart l = .ok none ∧ l ≠ frontMatterFence
+/-- a foreign block: its language is not a test language and not empty (the bare fence is
+reported as `MissingLanguageSpecifier`) -/
+def Fenced.ForeignWF (env : Env) (v : Fenced) : Prop :=
+  extractCodeBlockStart v.opener = .ok (some (v.bt, v.language, v.config)) ∧
+  env.languages.contains v.language = false ∧ v.language ≠ [] ∧
+  (∀ x ∈ v.body, startsWith x v.bt = false) ∧ startsWith v.closer v.bt = true
+
+/-- a scrut block that holds comment lines only -/
+def Fenced.NoCommandWF (env : Env) (v : Fenced) : Prop :=
+  extractCodeBlockStart v.opener = .ok (some (v.bt, v.language, v.config)) ∧
+  env.languages.contains v.language = true ∧
+  cfgAccepted env v.config ∧
+  (∀ x ∈ v.body, startsWith x v.bt = false) ∧ startsWith v.closer v.bt = true ∧
+  (∀ c ∈ v.body, isComment c = true)
+
+/-- Well-formedness of one item; `cs` = has content started before it (`content_start`: a
+non-blank line or a code block came before).  Front-matter is only front-matter while no content
+has started; a prose line `---` is only prose once it has. -/
+def Item.WF (env : Env) (cs : Bool) : Item → Prop
+  | .prose l => extractCodeBlockStart l = .ok none ∧ (cs = false → l ≠ frontMatterFence)
+  | .front body => cs = false ∧ (∀ x ∈ body, x ≠ frontMatterFence) ∧ env.docCfgOk (joinNl body) = true
   | .block b => b.WF env
+  | .foreign v => v.ForeignWF env
+  | .noCommand v => v.NoCommandWF env
+
+/-- `content_start` after an item -/
+def Item.csAfter (cs : Bool) : Item → Bool
+  | .prose l => cs || !(trim l).isEmpty
+  | .front _ => cs
+  | _ => true
+
+/-- `content_start` after a list of items -/
+def csAfterAll : Bool → List Item → Bool
+  | cs, [] => cs
+  | cs, it :: r => csAfterAll (it.csAfter cs) r
+
+def ItemsWF (env : Env) : Bool → List Item → Prop
+  | _, [] => True
+  | cs, it :: r => it.WF env cs ∧ ItemsWF env (it.csAfter cs) r
 
 /-- The tests that are written in the document.  `li` = index of the first line of the items,
 `title` = the title collected so far and not yet used by a test, `tp` = the run of title lines
-that directly precedes (headings and paragraphs accumulate; any other line ends the run; a test
-consumes the title). -/
+that directly precedes.  The title logic, exactly as the code has it:
+
+* heading and paragraph lines accumulate in `tp`, the title is the run joined by `\n`;
+* any other prose line (blank, list item, …) ends the run but keeps the title;
+* front-matter and **foreign code blocks neither end the run nor change the title** (a paragraph
+  directly before and directly after a foreign block form one title);
+* a scrut block without command ends the run and keeps the title;
+* a scrut block with a command takes the title; the next test starts without one. -/
 def expectedTests (env : Env) : List Item → Nat → Option Line → List Line → List (TestCase Cfg)
   | [], _, _, _ => []
   | .prose l :: r, li, title, tp =>
     match extractTitle env.isLetter l with
     | some x => expectedTests env r (li + 1) (some (joinNl (tp ++ [x]))) (tp ++ [x])
     | none => expectedTests env r (li + 1) title []
+  | .front body :: r, li, title, tp => expectedTests env r (li + (body.length + 2)) title tp
+  | .foreign v :: r, li, title, tp => expectedTests env r (li + v.lines.length) title tp
+  | .noCommand v :: r, li, title, _ => expectedTests env r (li + v.lines.length) title []
   | .block b :: r, li, title, _ =>
     { title := title.getD []
       command := b.cmd :: b.more
-      exitCode := b.exit.map (·.2)
+      exitCode := b.exit
       expectations := b.exps
       -- 1-based line of the `$` line
       lineNumber := li + 1 + b.comments.length + 1
       config := some (stripBraces b.config) }
       :: expectedTests env r (li + b.lines.length) none []
+
+/-- the front-matter texts of the document, in order -/
+def docTexts : List Item → List Line
+  | [] => []
+  | .front body :: r => joinNl body :: docTexts r
+  | _ :: r => docTexts r
 
 /-- what a test says apart from its position and title: command lines, expectation texts, exit
 code, inline configuration -/
@@ -158,10 +242,20 @@ abbrev Core := List Line × List Line × Option Nat × Option Cfg
 
 def TestCase.core (t : TestCase Cfg) : Core := (t.command, t.expectations, t.exitCode, t.config)
 
-/-- the blocks of a document, in order, as written -/
+/-- the blocks with a command, in order, as written -/
 def writtenCores : List Item → List Core
   | [] => []
-  | .prose _ :: r => writtenCores r
-  | .block b :: r => (b.cmd :: b.more, b.exps, b.exit.map (·.2), some (stripBraces b.config)) :: writtenCores r
+  | .block b :: r => (b.cmd :: b.more, b.exps, b.exit, some (stripBraces b.config)) :: writtenCores r
+  | _ :: r => writtenCores r
+
+/-- items that are not tests and not front-matter -/
+def Item.inert : Item → Bool
+  | .prose _ | .foreign _ | .noCommand _ => true
+  | _ => false
+
+def noFront : List Item → Bool
+  | [] => true
+  | .front _ :: _ => false
+  | _ :: r => noFront r
 
 end Scrut.Markdown
